@@ -56,12 +56,17 @@ type Segment struct {
 func (s *Segment) WriteTo(w io.Writer, _ chan struct{}) (int64, error) {
 	bw := bufio.NewWriter(w)
 
-	n, err := s.data.WriteTo(w)
+	// hash the data section as it is written: the footer of a loaded segment holds the
+	// checksum of the whole file it came from, not the checksum of its data section
+	chw := newCountHashWriter(w)
+	n, err := s.data.WriteTo(chw)
 	if err != nil {
 		return n, fmt.Errorf("error persisting segment: %w", err)
 	}
 
-	err = persistFooter(s.footer, bw)
+	footerCopy := *s.footer
+	footerCopy.crc = chw.Sum32()
+	err = persistFooter(&footerCopy, bw)
 	if err != nil {
 		return n, fmt.Errorf("error persisting segment footer: %w", err)
 	}
